@@ -19,6 +19,7 @@ import (
 	"encoding/json"
 	"errors"
 	"fmt"
+	"math"
 	"sort"
 	"strings"
 	"testing"
@@ -61,6 +62,9 @@ func runC17(c *vh.Case) {
 	spec := c17Spec{Kind: r.Choose("tools", "prompts", "resources", "templates"), PageSize: r.Range(1, 7), Version: r.Choose("2025-06-18", "2025-11-25", "2026-07-28")}
 	if r.Chance(1, 8) {
 		spec.PageSize = 100
+		if r.Chance(1, 3) {
+			spec.PageSize = []int{math.MaxInt, math.MaxInt - 1, math.MaxInt32}[r.Intn(3)] // "no limit"
+		}
 	}
 	server := mcp.NewServer(&mcp.Implementation{Name: "s", Version: "1"}, &mcp.ServerOptions{PageSize: spec.PageSize, HasTools: true, HasPrompts: true, HasResources: true})
 	registered := map[string]bool{}
@@ -191,45 +195,52 @@ func runC17(c *vh.Case) {
 			return ids, res.NextCursor, nil
 		}
 	}
-	iterate := func(cursor string) ([]string, error) {
+	iterateCtx := func(ictx context.Context, cursor string, onItem func(k int)) ([]string, error) {
 		var ids []string
 		var ierr error
+		got := func(id string) {
+			ids = append(ids, id)
+			if onItem != nil {
+				onItem(len(ids))
+			}
+		}
 		switch spec.Kind {
 		case "tools":
-			for t, err := range cs.Tools(ctx, &mcp.ListToolsParams{Cursor: cursor}) {
+			for t, err := range cs.Tools(ictx, &mcp.ListToolsParams{Cursor: cursor}) {
 				if err != nil {
 					ierr = err
 					break
 				}
-				ids = append(ids, t.Name)
+				got(t.Name)
 			}
 		case "prompts":
-			for t, err := range cs.Prompts(ctx, &mcp.ListPromptsParams{Cursor: cursor}) {
+			for t, err := range cs.Prompts(ictx, &mcp.ListPromptsParams{Cursor: cursor}) {
 				if err != nil {
 					ierr = err
 					break
 				}
-				ids = append(ids, t.Name)
+				got(t.Name)
 			}
 		case "resources":
-			for t, err := range cs.Resources(ctx, &mcp.ListResourcesParams{Cursor: cursor}) {
+			for t, err := range cs.Resources(ictx, &mcp.ListResourcesParams{Cursor: cursor}) {
 				if err != nil {
 					ierr = err
 					break
 				}
-				ids = append(ids, t.URI)
+				got(t.URI)
 			}
 		default:
-			for t, err := range cs.ResourceTemplates(ctx, &mcp.ListResourceTemplatesParams{Cursor: cursor}) {
+			for t, err := range cs.ResourceTemplates(ictx, &mcp.ListResourceTemplatesParams{Cursor: cursor}) {
 				if err != nil {
 					ierr = err
 					break
 				}
-				ids = append(ids, t.URITemplate)
+				got(t.URITemplate)
 			}
 		}
 		return ids, ierr
 	}
+	iterate := func(cursor string) ([]string, error) { return iterateCtx(ctx, cursor, nil) }
 	var issued []string
 	badCursor := func() (string, bool) { // cursor, clearly malformed?
 		switch x := r.Intn(9); {
@@ -461,6 +472,22 @@ func runC17(c *vh.Case) {
 	if err != nil || strings.Join(it, "\x00") != strings.Join(seq2, "\x00") {
 		c.Violate("iterator-differs-from-manual-paging", "client iterator yielded %v (err %v), manual paging %v", it, err, seq2)
 		return
+	}
+	// a caller that gives up while it works through a page: the iterator reports that, as manual paging would
+	// (the next list call fails), instead of ending as if the traversal were complete
+	if len(seq2) > spec.PageSize && spec.PageSize > 0 {
+		cctx, cancel := context.WithCancel(ctx)
+		part, err := iterateCtx(cctx, "", func(k int) {
+			if k == spec.PageSize {
+				cancel() // the last item of the first page is being processed
+			}
+		})
+		cancel()
+		if err == nil && len(part) < len(seq2) {
+			c.Violate("iterator-differs-from-manual-paging", "the caller's context ended while it processed the first page: the client iterator yielded %v and then ended without an error although %d items remain (manual paging reports the context's error at that point)", part, len(seq2)-len(part))
+			return
+		}
+		c.Count("iterators_cancelled_mid_traversal", 1)
 	}
 	// iterators started from every cursor issued at rest continue exactly from there
 	for i, cu := range cursors2 {
